@@ -18,10 +18,13 @@ from harness.drv_tax_lex import graph_lexicon
 def graph_world(k, g, rng):
     """a hypernym graph with words so that similarity / IC / search calls have content"""
     n = g['n']
-    forms = ['cat', 'dog', 'bank', 'bark', 'run']
+    # ('ax' and 'axe': Morphy proposes both for 'axes', so a lemmatized search has several
+    # candidates that are different words - the order of its results must not depend on
+    # how the candidate set happens to be iterated)
+    forms = ['ax', 'axe', 'cat', 'dog', 'bank', 'bark', 'run']
     g = dict(g)
     g['words'] = [[f, sorted(rng.sample(range(1, n + 1), min(n, rng.choice([1, 2, 2, 3]))))]
-                  for f in forms[:rng.randint(2, 5)]]
+                  for f in forms[:rng.randint(2, 7)]]
     lex = graph_lexicon(g)
     # non-reciprocated relations and frames on multi-sense entries: order-sensitive places
     for ss in lex['synsets']:
@@ -34,7 +37,7 @@ def graph_world(k, g, rng):
             s['subcat'] = [f['id'] for f in rng.sample(lex['frames'], rng.randint(1, 3))]
     lid = lex['id']
     return {'id': k, 'docs': [{'lmf_version': '1.3', 'lexicons': [lex]}], 'scope': f'{lid}:1',
-            'corpus': [rng.choice(forms) for _ in range(6)], 'queries': ['cat', 'cats', 'Dog', 'running']}
+            'corpus': [rng.choice(forms) for _ in range(6)], 'queries': ['cat', 'cats', 'Dog', 'running', 'axes']}
 
 
 def query_world(k, rng):
